@@ -28,8 +28,19 @@ def generate(rng, tier, rep):
             if T.get('deco_skip') and not any(not U.get('deco_skip') and U['layer'] == T['layer'] for U in c['tests']):
                 c['tests'].append({'layer': T['layer']})
         cases.append(c)
+    # a layer subprocess dying while it writes its report: the lists must show an error for that layer
+    for i in range({'quick': 12, 'thorough': 100, 'search': 0}[tier]):
+        c = worldcase.gen_world(rng, faults=False, rich=False, opts=[rng.choice(['-j2', '-j3'])])
+        if not c['layers']:
+            c['layers'] = worldcase.gen_layers(rng, 1, faults=False)
+        li = rng.randrange(len(c['layers']))
+        c['tests'] += [{'layer': li, 'body': 'fail', 'str_die': rng.choice(['exit0', 'exit3', 'kill', 'segv'])}, {'layer': li, 'body': 'fail'}]
+        c['injected'] = 'report'
+        cases.append(c)
     for c in cases:
         count_dist(rep, c)
+        if c.get('injected'):
+            rep.count('injected:report-death')
     return cases
 
 
